@@ -21,6 +21,7 @@ import (
 	"fmt"
 	"reflect"
 	"regexp"
+	"sort"
 	"time"
 	"unicode"
 	"unicode/utf8"
@@ -324,7 +325,18 @@ func normalizeMapInto(cfg *Config, opts *options, from reflect.Value) Error {
 		return raiseKeyInvalidTypeMerge(cfg, from.Type())
 	}
 
-	for _, k := range from.MapKeys() {
+	// Settings are defined in the order of their keys, so that the outcome for
+	// overlapping dotted keys does not depend on the order of map iteration.
+	keys := from.MapKeys()
+	sort.Slice(keys, func(i, j int) bool {
+		ki, kj := chaseValueInterfaces(keys[i]), chaseValueInterfaces(keys[j])
+		if ki.Kind() == reflect.String && kj.Kind() == reflect.String {
+			return ki.String() < kj.String()
+		}
+		return fmt.Sprint(ki.Interface()) < fmt.Sprint(kj.Interface())
+	})
+
+	for _, k := range keys {
 		k = chaseValueInterfaces(k)
 		if k.Kind() != reflect.String {
 			return raiseKeyInvalidTypeMerge(cfg, from.Type())
